@@ -1474,6 +1474,9 @@ func (g *graph) embeddedField(node ast.Node, by types.Object) *types.Var {
 			nodes = append(nodes, node_.Index)
 		case *ast.IndexListExpr:
 			node = node_.X
+			for _, index := range node_.Indices {
+				nodes = append(nodes, index)
+			}
 		default:
 			lint.ExhaustiveTypeSwitch(node_)
 		}
